@@ -76,6 +76,17 @@ CHECKS["C16"] = ("other",
     "validate's loader; byte-level agreement of the renderings (serde/quick-xml).",
     TB % "c16", "who-calls + monitors via abstract interpretation of MIR (no execution)", "DESIGN.md §5 C16")
 
+CHECKS["C05"] = ("other",
+    "Enumerates every consumption of a randomly ordered std HashMap/HashSet (loops, adaptor chains, Debug of keys) in code "
+    "reachable from the entry points (call graph with rapid type analysis): a loop that pushes Serialize values or emits "
+    "evaluation records in iteration order is a violation; console-only and order-insensitive sites are listed with reasons "
+    "and a new site fails closed. Walks the field graph of every type handed to serde_json/serde_yaml serializers (honouring "
+    "skip_serializing) for std hash containers, checks the ordered containers (BTreeSet/IndexMap, serde_json preserve_order) and "
+    "enumerates clock/env/address reads with the rule that elapsed times only feed time/duration fields. Found and repaired two "
+    "genuine defects (test -o json order, rulegen order). Not claimed: byte-identity of the serializers, stdout/stderr interleaving.",
+    "Trusted: rustc front end/MIR, the extractor, the call graph (engine/cg.py), the reviewed tables under tables/.",
+    "site enumeration + type-graph walk over the resolved program (no execution)", "DESIGN.md §5 C05")
+
 NOT_APPLICABLE = {
 }
 
